@@ -7,7 +7,8 @@ macro_rules! impl_bytes_utils_for_allocator {
     const SIZE: usize = core::mem::size_of::<$ty>();
 
     let allocated = $this.allocated();
-    if $offset + SIZE > allocated {
+    // `$offset + SIZE` may wrap for huge offsets, compare without adding.
+    if $offset > allocated || allocated - $offset < SIZE {
       return Err(Error::OutOfBounds { $offset, allocated });
     }
 
